@@ -4,7 +4,7 @@ import random
 import time
 
 from ..core import Op
-from .. import aoef, aoefgen, aoef_impl, c01_cases, c01_impl
+from .. import aoef, aoefgen, aoef_impl, c01_cases, c01_fs, c01_impl
 
 PROPERTY = "C01"
 LEAN_MODULE = "Proofs.C01"
@@ -13,23 +13,33 @@ _THEOREM_NAMES = ["C01_roundtrip_general", "C01_save_total", "C01_roundtrip", "C
                   "C01_fixpoint", "C01_fixpoint_dir", "C01_same_type_save", "C01_same_type_load", "C01_same_type",
                   "C01_type_dispatch", "C01_wf_of_wfB", "C01_wfB_iff", "C01_load_gate_iff", "C01_load_gate_not_found",
                   "C01_load_file_type", "C01_roundtrip_dir_relative", "C01_fixpoint_dir_dot", "C01_cycles_dir_outside",
-                  "C01_fixpoint_dir_iff", "C01_save_gate_iff", "C01_save_load_gate"]
+                  "C01_fixpoint_dir_iff", "C01_save_gate_iff", "C01_save_load_gate",
+                  # follow-up: the file system as the state carried between calls
+                  "C01_fs_write_read", "C01_fs_write_frame", "C01_fs_save_overwrites", "C01_fs_load_last_save",
+                  "C01_fs_save_load", "C01_fs_history_free", "C01_fs_history", "C01_fs_history_roundtrip",
+                  "C01_fs_history_fixpoint"]
 THEOREMS = [_T + n for n in _THEOREM_NAMES]
 LEVEL_TEXT = ("Lean theorems over an executable model of all 26 AOEF adapter modules (data classes, document classes, "
               "save = first-wins tables over the post-order traversal, single-pass loader with lenient / strict "
               "references): load (save c) = c for every collection constructor under the explicit coherence "
               "hypothesis WF, with and without an audio directory (relative or absolute; with a directory the n-cycle "
               "fixpoint holds exactly when every recording lies inside it), and n-cycle fixpoint; the file-level gates "
-              "of io.save / io.load. The model is tied to the code on every run by regenerated FieldsAgree obligations "
+              "of io.save / io.load; histories over a file-system model path -> content in which save overwrites: a load "
+              "returns the collection last saved to that path whatever any path held before and whatever happened at other "
+              "paths, and every history of save/load cycles answers step by step as the pure model (history-freedom). "
+              "The model is tied to the code on every run by regenerated FieldsAgree obligations "
               "(every data class and every AOEF object class, found by its position in the document; decide +kernel on "
               "the model structures' own field lists), the adapter-table obligation, and differential correspondence "
               "of documents, loads and n-cycle round trips on pool-generated object graphs (in-process and through a "
               "fresh loader process), each round trip also judged after every cycle by a walk over the declared "
-              "fields (model_fields) of the real classes.")
+              "fields (model_fields) of the real classes, and of histories of saves / loads / foreign writes over shared "
+              "real files against the file-system model.")
 LEVEL_NOTE = ("Trusted: Lean kernel; the harness' conversion between pydantic objects / JSON documents and the model's "
               "JSON layout; pydantic's parsing of atoms (floats, datetimes, e-mail, uuid) and JSON text encoding, which "
               "the model treats as opaque atoms. Unmodelled: Recording's extra='allow' undeclared fields, non-simple "
-              "terms (the property permits reduction of a term to its label), geometry re-validation (C03). The "
+              "terms (the property permits reduction of a term to its label), geometry re-validation (C03); of the file "
+              "system only path -> content is modelled (no directories, permissions, links, concurrent writers; a path is "
+              "a key, distinct names are distinct files). The "
               "strength of the model/code tie is bounded by the generators (distribution in the evidence).")
 TECHNIQUE = ("Lean 4 proof (round trip and fixpoint theorems over a hand-written executable model of the AOEF adapters); "
              "regenerated FieldsAgree / adapter-table obligations (decide +kernel); differential correspondence of "
@@ -37,7 +47,14 @@ TECHNIQUE = ("Lean 4 proof (round trip and fixpoint theorems over a hand-written
 RULE = ("distinct (operation, collection) inputs on which the real save/load ran without error; collections are "
         "pool-generated object graphs of all eight types with shared sub-objects and equal-content twins, optional "
         "fields present/absent (randomly and one declared field at a time), falsy-but-meaningful and extreme atoms, "
-        "relative and absolute audio directories in several spellings")
+        "relative and absolute audio directories in several spellings; objects constructed by the constructors, "
+        "model_validate (dict / tuples / JSON), model_copy, deepcopy, with ints and numpy scalars; every spelling of the "
+        "calls (keyword / positional, format, type, str / Path, missing parent, pre-existing target, relative file name) "
+        "x every type x directory class; every list slot one at a time reordered / with a repeated element; one uuid "
+        "shared across kinds; time_expansion at 10^-6..10^-15 around 1.0; near-twins; 17 / 257 / 1025 elements; "
+        "histories over shared files (shrink, grow, edit a loaded object and save it back, alternate collections, "
+        "change the audio directory, foreign content at the target, interleaved paths, failed saves, poisoned results, "
+        "revised content, same-length documents), every step judged on its own")
 TRUSTED = ["pydantic-core parsing / dumping of atoms (float repr round trip, datetime, uuid, e-mail) and JSON text",
            "harness/aoef.py: build (model JSON -> pydantic objects), dump (objects -> model JSON), doc_to_model "
            "(dump's field lists are double-checked on every round trip by the declared-field walk of harness/c01_generic.py)"]
@@ -51,7 +68,10 @@ NOT_COMPARED = ["order of the top-level definition lists of a document and the n
                 "absent vs empty optional lists in the document (representation, not content)",
                 "AOEFObject.created_on / version of the file wrapper", "error messages",
                 "the sign of a zero (-0.0 == 0.0; negative zeros are never generated)",
-                "a time-zone offset with a seconds part (pydantic drops the seconds; never generated)"]
+                "a time-zone offset with a seconds part (pydantic drops the seconds; never generated)",
+                "what a file holds after a save that raised (the property speaks of saves that succeed): loads of such a "
+                "file are run but not compared until the next successful save to it",
+                "instances of user-defined subclasses of the data classes (the loader cannot return a class it does not know)"]
 
 HAVE_DISPATCH_THEOREM = True     # set when Proofs/C01.lean provides C01_type_dispatch
 _DISPATCH_OBLIGATION = (
@@ -142,7 +162,7 @@ def _impl_load_gate(inp):
     from soundevent import io
     from .. import leanio as _leanio
     ty = inp["doc_type"]
-    if ty not in _GATE_DOCS:
+    if ty not in _GATE_DOCS:            # (a replay: `_stage_gate` has not written the model's documents)
         cj = aoefgen.gen_collection(random.Random("gate:" + ty), ty, size=0.5)
         _obj, path = aoef_impl.save_real(cj, None)
         _GATE_DOCS[ty] = _json.load(open(path))
@@ -231,7 +251,15 @@ def _impl_roundtrip_dup(inp):
     return {k: v for k, v in out.items() if k in ("val", "raise", "unbuildable")}
 
 
+def _impl_fs_history(inp):
+    return c01_fs.run(inp)
+
+
 OPS = {
+    # histories over one file system: the same path saved again with a smaller / larger / other / revised collection,
+    # a loaded object edited and saved back, foreign content at the target, interleaved paths, poisoned results
+    "fs_history": Op("fs_history", _impl_fs_history, holds=c01_fs.holds, compare=c01_fs.compare, to_model=c01_fs.to_model,
+                     nontrivial=lambda i, o: isinstance(o, dict) and any("val" in x for x in o.get("steps", []))),
     # the same object listed twice in the collection's own member list (outside WF: only the correspondence is checked)
     "roundtrip_dup": Op("roundtrip_dup", _impl_roundtrip_dup, compare=_cmp_roundtrip, determined=False,
                         to_model=_model_roundtrip, model_op="roundtrip", nontrivial=lambda i, o: "val" in o),
@@ -570,7 +598,14 @@ def _stage_wide(ctx, st):
 
 IO_VARIANTS = [{"save_format": None}, {"save_format": "aoef", "load_format": None}, {"load_format": "aoef", "load_type": True},
                {"load_type": True}, {"subdir": True, "path_as": "path"}, {"subdir": True, "save_format": None, "load_format": None,
-                                                                          "load_type": True}, {"path_as": "path"}]
+                                                                          "load_type": True}, {"path_as": "path"},
+               # follow-up: positional arguments in the documented order, a target that already holds something,
+               # a file name relative to the working directory, the file removed between the cycles
+               {"positional": True}, {"positional": True, "load_type": True, "path_as": "path"},
+               {"positional": True, "save_format": None, "load_format": None, "subdir": True},
+               {"preexisting": "junk-long"}, {"preexisting": "nested-tail", "positional": True}, {"preexisting": "empty"},
+               {"preexisting": "spaces", "load_type": True}, {"relname": ""}, {"relname": "./", "path_as": "path"},
+               {"remove_between": True}]
 
 
 def _stage_io(ctx, st):
@@ -589,6 +624,103 @@ def _stage_io(ctx, st):
                 dups.append(dict(c, collection={"type": c["collection"]["type"], "value": w}, n=1))
     ctx.tally("duplicated-member inputs (outside WF, correspondence only)", len(dups))
     ctx.run_cases(OPS["roundtrip_dup"], dups)
+
+
+def _small_cases(ctx, tag):
+    """one small and one empty collection of every type, without a directory, under an absolute and under a relative one"""
+    rng = random.Random("C01-small:" + tag)
+    out = []
+    for ty in aoefgen.TYPES:
+        for base, d in ((None, None), ("/data/audio", "/data/audio"), ("audio/site a", "./audio/")):
+            cj = aoefgen.gen_collection(rng, ty, base=base, size=0.6)
+            out.append({"collection": cj, "save_dir": d, "load_dir": d, "n": 2, "dir_as": "str", "fresh": False})
+        v = {"uuid": aoefgen.Gen(rng, size=0.3).uid(), "created_on": "2024-02-29T12:00:00"}
+        full = aoefgen.gen_collection(rng, ty, size=0.3)["value"]
+        for k, x in full.items():
+            if k not in v:
+                v[k] = [] if isinstance(x, list) else (x if k in ("name", "evaluation_task") else None)
+        out.append({"collection": {"type": ty, "value": v}, "save_dir": "/data/audio", "load_dir": "/data/audio", "n": 2,
+                    "dir_as": "path", "fresh": False, "_tally": "empty collection"})
+    return _wf_filter(ctx, out)
+
+
+def _stage_products(ctx, st):
+    """pairwise products (HISTORIES.md section 3): every spelling of the calls x every collection type x
+    {no directory, absolute, relative, empty collection}; every construction path x every collection type"""
+    small = _small_cases(ctx, "calls")
+    cases = [dict(c, io=v, n=1 + (i + j) % 2) for i, c in enumerate(small) for j, v in enumerate(IO_VARIANTS)]
+    for c in cases:
+        c.pop("_tally", None)
+    ctx.exhaustive["call_spellings"] = (f"{len(IO_VARIANTS)} spellings of save/load (format given / inferred / positional, type requested, "
+                                        "str / Path, missing parent, pre-existing target, relative file name) x 8 collection types x "
+                                        "{no directory, absolute, relative, empty collection}")
+    ctx.tally("call spelling x type x directory class", len(cases))
+    ctx.run_cases(OPS["roundtrip"], cases)
+    vias = [v for v in c01_impl.VIAS if v != "build"]
+    src = st.get("rich", [])[8:16] + _small_cases(ctx, "vias")[::2] + st.get("twin", [])[::6]
+    cases = [dict(c, via=v, n=1 + (i + j) % 2, fresh=bool((i + j) % 3 == 0)) for i, c in enumerate(src) for j, v in enumerate(vias)]
+    for c in cases:
+        c.pop("_tally", None)
+        c.pop("ints", None)
+    ctx.exhaustive["construction_paths"] = ("constructors / model_validate(dict) / model_validate with tuples / model_validate_json / "
+                                            "model_copy deep and shallow / copy.deepcopy / ints / numpy scalars assigned, x all-fields "
+                                            "and small collections of every type")
+    ctx.tally("construction path x collection", len(cases))
+    ctx.run_cases(OPS["roundtrip"], cases)
+
+
+def _stage_siblings(ctx, st):
+    """every list slot of every class one at a time reversed / rotated / with a repeated element; objects of
+    different kinds under one uuid"""
+    rich_by_type = {}
+    for c in st.get("rich", [])[8:]:
+        rich_by_type.setdefault(c["collection"]["type"], c["collection"])
+    vs = c01_cases.sibling_variants(rich_by_type, ctx.rng, hosts_per_slot=None if ctx.thorough() else 1)
+    cases = [dict(c, save_dir=None, load_dir=None, n=1, dir_as="str", fresh=bool(i % 4 == 0)) for i, (label, c) in enumerate(vs)]
+    cases = _buildable(ctx, _wf_filter(ctx, cases))
+    ctx.tally("sibling list slots (one slot reversed / rotated / repeated)", len(cases))
+    ctx.exhaustive["list_slots"] = (f"{len(c01_cases.LIST_SLOTS) + len(c01_cases.COLLECTION_LIST_SLOTS)} (class, list field) slots, one at a "
+                                    "time reversed / rotated / with a repeated element in an all-fields collection")
+    ctx.run_cases(OPS["roundtrip"], cases)
+    ctx.run_cases(OPS["save_doc"], _doc_cases(cases[::3]))
+    cross = []
+    for i, c in enumerate(st.get("rich", [])[:16] + st.get("cases", [])[::5] + st.get("twin", [])[::4]):
+        cross.append(dict(c, collection=c01_cases.share_uuids_across_kinds(c["collection"], ctx.rng), n=1 + i % 2,
+                          fresh=bool(i % 3 == 0)))
+    cross = _buildable(ctx, _wf_filter(ctx, cross))
+    for c in cross:
+        c.pop("_tally", None)
+    ctx.tally("one uuid shared by objects of different kinds", len(cross))
+    ctx.run_cases(OPS["roundtrip"], cross)
+    ctx.run_cases(OPS["save_doc"], _doc_cases(cross[::2]))
+
+
+def _stage_boundaries(ctx, st):
+    """tolerance-sized offsets around the comparison the adapters make (time_expansion != 1.0), near-twins (content a
+    hair apart), collections at the sizes where an implementation could switch strategy"""
+    te = _tally_cases(ctx, _wf_filter(ctx, c01_cases.time_expansion_cases()), "boundary")
+    ctx.exhaustive["time_expansion"] = (f"{len(c01_cases.time_expansion_values())} values: 1.0, its two neighbours, 1 +- 10^-6..10^-15, the "
+                                        "same offsets around 10, 1e-6, 1e9; 0, 5e-324")
+    ctx.run_cases(OPS["roundtrip"], te)
+    ctx.run_cases(OPS["save_doc"], _doc_cases(te[::2]))
+    near = []
+    for ty in aoefgen.TYPES:
+        for i in range(ctx.budget(3, 60)):
+            base = ctx.rng.choice(["/data/audio", None])
+            cj = c01_cases.NearGen(ctx.rng, rich=i == 0, base=base, size=0.8).collection(ty)
+            near.append({"collection": cj, "save_dir": base, "load_dir": base, "n": ctx.rng.choice([1, 2]), "dir_as": "str",
+                         "fresh": bool(i % 2), "_tally": "near-twins"})
+    near = _tally_cases(ctx, _buildable(ctx, _wf_filter(ctx, near)), "boundary")
+    ctx.run_cases(OPS["roundtrip"], near)
+    ctx.run_cases(OPS["save_doc"], _doc_cases(near[::2]))
+    sizes = c01_cases.size_cases(ctx.rng, (17, 257, 1025) if not ctx.thorough() else (17, 33, 257, 1025, 2049))
+    if not ctx.thorough():      # quick: the largest size for recordings, tags / features and annotations only
+        sizes = [c for c in sizes if not (c["_tally"].startswith("1025") and "predictions" in c["_tally"])]
+    sizes = _tally_cases(ctx, _wf_filter(ctx, sizes), "size")
+    ctx.exhaustive["sizes"] = "17 / 257 / 1025 recordings, tags, features, notes, sound event annotations, predictions; parent chains of 17 / 257"
+    ctx.run_cases(OPS["roundtrip"], sizes)
+    ctx.run_cases(OPS["roundtrip"], [dict(c, fresh=True) for c in sizes[::3]])
+    ctx.run_cases(OPS["save_doc"], _doc_cases(sizes[::4]))
 
 
 def _stage_load(ctx, st):
@@ -617,8 +749,54 @@ def _stage_history(ctx, st):
     ctx.tally("multi-collection histories (12 steps each)", len(multi))
 
 
+def _fs_prepare(ctx, hs):
+    """fill the documents of `put` steps from the model's `save`, keep the histories whose collections are all
+    inside the quantifier (WF, and constructible where an edit produced them)"""
+    puts = [s for h in hs for s in h["steps"] if "doc_of" in s]
+    docs = ctx.model_many("save", [{"collection": s["doc_of"], "audio_dir": None} for s in puts])
+    for s, d in zip(puts, docs):
+        s.pop("doc_of")
+        if isinstance(d, dict) and "val" in d:
+            s["doc"] = d["val"]
+        else:
+            s["text"] = "junk-long"
+    keep = []
+    for h in hs:
+        saves = [s for s in h["steps"] if s["cmd"] == "save"]
+        oks = ctx.model_many("wf", [{"collection": s["collection"]} for s in saves])
+        if not all(oks):
+            ctx.tally("generator:not-WF")
+            continue
+        if len(_buildable(ctx, [s for s in saves if s.get("edit")])) != len([s for s in saves if s.get("edit")]):
+            continue
+        kind = h.pop("_kind", "?")
+        ctx.tally("fs-history:" + kind)
+        for s in h["steps"]:
+            ctx.tally("fs-step:" + s["cmd"] + (":fresh" if s.get("fresh") else "") + (":edited-loaded" if s.get("edit") else "")
+                      + (":poison" if s.get("poison") else ""))
+            if s["cmd"] == "save":
+                ctx.tally("constructed via:" + str(s.get("via", "loaded" if s.get("source") == "loaded" else "build")))
+                ctx.tally("call:" + s.get("call", "kw"))
+        keep.append(h)
+    return keep
+
+
+def _stage_fs(ctx, st):
+    """the file system is the state between calls: histories of saves and loads over shared paths"""
+    hs = _fs_prepare(ctx, c01_fs.histories(ctx.rng, ctx.budget(48, 960)))
+    ctx.tally("file-system histories", len(hs))
+    ctx.run_cases(OPS["fs_history"], hs)
+
+
 def _stage_gate(ctx, st):
-    # the file-level gate of io.load: every combination of existence / suffix / format / version / type
+    # the file-level gate of io.load: every combination of existence / suffix / format / version / type.
+    # The documents the loader is shown are the *model's* (not written by the `io.save` under test).
+    tys = sorted({c["doc_type"] for c in _gate_cases()})
+    docs = ctx.model_many("save", [{"collection": aoefgen.gen_collection(random.Random("gate:" + ty), ty, size=0.5), "audio_dir": None}
+                                   for ty in tys])
+    for ty, d in zip(tys, docs):
+        if isinstance(d, dict) and "val" in d:
+            _GATE_DOCS[ty] = aoef.aoef_file(aoef.model_to_doc(d["val"]))
     ctx.run_cases(OPS["load_gate"], _gate_cases())
     ctx.exhaustive["load_gate"] = "exists x suffix x format{None,aoef,other} x version{3} x doc type{3} x requested type{4}"
     ctx.run_cases(OPS["save_gate"], _save_gate_cases())
@@ -635,8 +813,10 @@ def _correspondence(ctx):
     ctx.run_corpus(OPS)
     st = {}
     for name, fn in (("all-fields", _stage_rich), ("optional-slots", _stage_slots), ("random", _stage_random),
-                     ("directories", _stage_dirs), ("wide-atoms-twins", _stage_wide), ("call-variants", _stage_io), ("loader", _stage_load),
-                     ("histories", _stage_history), ("load-gate", _stage_gate), ("large", _stage_big)):
+                     ("directories", _stage_dirs), ("wide-atoms-twins", _stage_wide), ("call-variants", _stage_io), ("call-and-construction-products", _stage_products),
+                     ("sibling-slots", _stage_siblings), ("boundaries-sizes", _stage_boundaries), ("loader", _stage_load),
+                     ("histories", _stage_history), ("file-system-histories", _stage_fs), ("load-gate", _stage_gate),
+                     ("large", _stage_big)):
         t0 = time.time()
         ctx.stage("correspondence:" + name, fn, ctx, st)
         ctx.tally("seconds in stage " + name, round(time.time() - t0, 1))
